@@ -247,10 +247,17 @@ class ProfileStub(object):
 
 
 @REG.contract('setup/idempotent-after-first-call', [DIFF + ':DiffusionModel.setup', DIFF + ':DiffusionModel.record'],
-              configs=[dict(name='E=%d,%s' % (E, 'rec' if r else 'norec'), E=E, rec=r) for E in (1, 2) for r in (False, True)])
+              configs=[dict(name='E=%d,%s' % (E, 'rec' if r else 'norec'), E=E, rec=r) for E in (1, 2) for r in (False, True)]
+              + [dict(name='E=%d,norec,composition-boundaries' % E, E=E, rec=False, comp=True) for E in (1, 2)])
 def c_setup(ctx, it, cfg):
     E = cfg['E']
-    m, N, dz, bc, els, x, minC = mk_model(ctx, it, E, (FLUX,) * (2 * E), record=cfg['rec'])
+    # with composition boundary conditions the two end nodes start at the boundary values, which may be exactly 0 or 1: they too must end up within the bounds
+    m, N, dz, bc, els, x, minC = mk_model(ctx, it, E, ((COMP,) if cfg.get('comp') else (FLUX,)) * (2 * E), record=cfg['rec'])
+    if cfg.get('comp'):
+        for side in ('leftBC', 'rightBC'):          # boundary compositions are compositions: each within [0, 1] (0 and 1 included), their sum at most 1
+            vals = [bc.fields[side][e] for e in els]
+            ctx.assume(and_(*[and_(ge(v, 0), le(v, 1)) for v in vals]))
+            ctx.assume(le(sum(vals, 0), 1))
     log = []
     m.fields['compositionProfile'] = ProfileStub(log)
     m.fields['isSetup'] = False
@@ -273,7 +280,8 @@ def c_setup(ctx, it, cfg):
     nE = E + 1
     for k in range(E):
         forall(ctx, 'first-call/at-least-minComposition[%s]' % els[k], 0, N, lambda i: ge(x1(k, i), minC))
-        forall(ctx, 'first-call/shifted-by-n*minC-or-floored[%s]' % els[k], 0, N,
+        lo, hi = (1, N - 1) if cfg.get('comp') else (0, N)          # end nodes of a composition boundary start from the boundary value instead
+        forall(ctx, 'first-call/shifted-by-n*minC-or-floored[%s]' % els[k], lo, hi,
                lambda i: eq(x1(k, i), ite(gt(xin(k, i), minC), vmax(xin(k, i) - nE * minC, minC), minC)))
     rec1 = m.fields['_recordedTime'].shape[0] if cfg['rec'] else None
     pre = snapshot(m)
